@@ -24,22 +24,33 @@ Judge(o) ==
        /\ Chk(o.u_ab_c = U2(U2(a, b), c) /\ o.u_a_bc = U2(a, U2(b, c)), o.tid, "drift:unite3")
        /\ Chk(o.eq_ab = ImplEqV(a, b), o.tid, "drift:eq")
        /\ Chk(o.s_a = ImplSubst(a, m) /\ o.s_uab = ImplSubst(U2(a, b), m), o.tid, "drift:subst")
-       \* the laws on the real results
-       /\ Chk(o.eq_idem \/ Dev_UnhashableLiteral(a), o.tid, "viol:Idempotent")
-       /\ Chk(o.eq_comm, o.tid, IF Dev_UnhashableLiteral(a) \/ Dev_UnhashableLiteral(b) THEN "dev:unhashable-literal-not-merged" ELSE "viol:Commutative")
-       /\ Chk(o.eq_assoc, o.tid, IF UnhashAny(o) THEN "dev:unhashable-literal-not-merged" ELSE "viol:Associative")
+       \* the laws on the real results.  A failure is classified as a known deviation (dev:) only if the operands are in the
+       \* deviation class AND the real results are exactly what the model of the deviating mechanism predicts AND the model
+       \* itself fails the law there; any other failure is a violation.
+       /\ Chk(o.eq_idem, o.tid,
+              IF Dev_UnhashableLiteral(a) /\ o.u_aa = U2(a, a) /\ ~ImplEqV(U2(a, a), a)
+              THEN "dev:unhashable-literal-not-merged" ELSE "viol:Idempotent")
+       /\ Chk(o.eq_comm, o.tid,
+              IF (Dev_UnhashableLiteral(a) \/ Dev_UnhashableLiteral(b)) /\ o.u_ab = U2(a, b) /\ o.u_ba = U2(b, a) /\ ~ImplEqV(U2(a, b), U2(b, a))
+              THEN "dev:unhashable-literal-not-merged" ELSE "viol:Commutative")
+       /\ Chk(o.eq_assoc, o.tid,
+              IF UnhashAny(o) /\ o.u_ab_c = U2(U2(a, b), c) /\ o.u_a_bc = U2(a, U2(b, c)) /\ ~ImplEqV(U2(U2(a, b), c), U2(a, U2(b, c)))
+              THEN "dev:unhashable-literal-not-merged" ELSE "viol:Associative")
        /\ Chk(NoNestedUnion(o.u_ab) /\ NoNestedUnion(o.u_ab_c), o.tid, "viol:NeverNests")
        /\ Chk(o.eq_never_r /\ o.eq_never_l, o.tid, "viol:NeverIdentity")
        /\ Chk((Closed(a) /\ Closed(b) /\ StaticV(a) /\ StaticV(b)) => (o.acc_a /\ o.acc_b), o.tid, "viol:AcceptsOperands")
        /\ Chk((Closed(a) /\ Closed(b) /\ StaticV(a) /\ StaticV(b) /\ Closed(o.u_ab) /\ ~HasTD(a) /\ ~HasTD(b)) => Members(o.u_ab) = Members(a) \cup Members(b),
               o.tid, "viol:MembersAreUnion")
        /\ Chk(o.eq_ab => o.hash_ab, o.tid,
-              IF Dev_UnhashableLiteral(a) THEN "dev:unhashable-literal-hashes-by-identity" ELSE "viol:EqualImpliesHashEqual")
+              IF Dev_UnhashableLiteral(a) /\ ImplEqV(a, b) /\ ~ImplSameHash(a, b)
+              THEN "dev:unhashable-literal-hashes-by-identity" ELSE "viol:EqualImpliesHashEqual")
        /\ Chk(Closed(a) => o.eq_subst_closed, o.tid, "viol:SubstIdentityOnClosed")
        /\ Chk(FreeVars(o.s_a) \cap DOMAIN m = {}, o.tid, "viol:SubstReplacesAll")
        /\ Chk(o.eq_subst_unite, o.tid,
-              IF Dev_UnhashableLiteral(a) \/ Dev_UnhashableLiteral(b) THEN "dev:unhashable-literal-not-merged"
-              ELSE "viol:SubstCommutesWithUnite")
+              IF /\ (Dev_UnhashableLiteral(a) \/ Dev_UnhashableLiteral(b))
+                 /\ o.s_uab = ImplSubst(U2(a, b), m) /\ o.u_sab = U2(ImplSubst(a, m), ImplSubst(b, m))
+                 /\ ~ImplEqV(ImplSubst(U2(a, b), m), U2(ImplSubst(a, m), ImplSubst(b, m)))
+              THEN "dev:unhashable-literal-not-merged" ELSE "viol:SubstCommutesWithUnite")
 
 TInit == l = 1 /\ stage = "trace" /\ ta = Never /\ tb = Never /\ ob = NONE /\ tc = Never /\ tm = "T->int"
 TNext == l <= Len(Obs) /\ Judge(Obs[l]) /\ l' = l + 1 /\ UNCHANGED avars
